@@ -283,13 +283,15 @@ class FakeMixer:
     def __getattr__(self, name):
         if name in MIXER_METHODS:
             def call(*a, **kw):
-                self.log.append([-1, name, [canon_scalar(x) for x in a]])
+                self.log.append([-1, name, [canon_scalar(x, as_int=(name == "set_volume")) for x in a]])
                 return Future(self.answers.get(name, DEFAULT), self.salt, self.returned)
             return call
         raise AttributeError(name)
 
 
-def canon_scalar(x):
+def canon_scalar(x, as_int=False):
+    if isinstance(x, bool) and as_int:
+        return ["int", int(x)]  # the mixer is handed True/False, which are the ints 1/0
     if isinstance(x, bool):
         return ["bool", x]
     if isinstance(x, int):
@@ -346,9 +348,20 @@ def query_token(q):
 # running one case
 
 
+RAW_AS = {"lookup": "lookup", "get_images": "get_images", "search": "search", "browse": "browse",
+          "get_distinct": "get_distinct", "refresh": "refresh", "get_items": "get_items", "delete": "delete",
+          "set_volume": "set_volume", "set_mute": "set_mute"}
+
+
 def canon_result(op, value, returned):
     """Canonical form of a core call's return value (exception handled by the caller)."""
     name = op["name"]
+    if name == "raw":
+        typed = {"name": RAW_AS[op["raw"]]}
+        if op["raw"] == "browse":
+            a = op["args"][0]
+            typed["uri"] = None if a[0] == "none" else (a[1] if a[0] == "str" else "")
+        return canon_result(typed, value, returned)
     if name in ("lookup", "get_images"):
         if not isinstance(value, dict):
             return ["wrong", repr(type(value))]
@@ -449,6 +462,35 @@ def run_case(case, salt=0, make=make_fakes):
             value = pls.refresh(op["scheme"])
         elif name == "get_uri_schemes":
             value = pls.get_uri_schemes()
+        elif name == "raw":
+            import c09_validation as V
+
+            a = [V.obj_of(x) for x in op["args"]]
+            raw = op["raw"]
+            if raw == "lookup":
+                value = lib.lookup(a[0])
+            elif raw == "get_images":
+                value = lib.get_images(a[0])
+            elif raw == "search":
+                q = QUERIES[op["query"]]
+                value = lib.search(dict(q), uris=a[0], exact=a[1])
+            elif raw == "browse":
+                value = lib.browse(a[0])
+            elif raw == "get_distinct":
+                q = QUERIES[op["query"]]
+                value = lib.get_distinct(a[0], None if q is None else dict(q))
+            elif raw == "refresh":
+                value = lib.refresh(a[0])
+            elif raw == "get_items":
+                value = pls.get_items(a[0])
+            elif raw == "delete":
+                value = pls.delete(a[0])
+            elif raw == "set_volume":
+                value = mix.set_volume(a[0])
+            elif raw == "set_mute":
+                value = mix.set_mute(a[0])
+            else:
+                raise ValueError(name)
         elif name == "core_schemes":
             import types
 
